@@ -329,7 +329,9 @@ def load_module_from_file_object(
                 elif fast_load:
                     co = xdis.marsh.load(fp, magicint2version[magic_int])
                 else:
-                    co = xdis.unmarshal.load_code(fp, magic_int, code_objects)
+                    co = xdis.unmarshal.load_code(
+                        fp, magic_int, code_objects=code_objects
+                    )
                 pass
             else:
                 co = None
